@@ -22,7 +22,7 @@ def scratch(patch):
 
 
 def run_check(prop, root):
-    r = subprocess.run(['/verif/check', prop, '--root', root, '--no-evidence'], capture_output=True, text=True, cwd='/verif')
+    r = subprocess.run([os.environ.get('REGRESS_VERIF', '/verif') + '/check', prop, '--root', root, '--no-evidence'], capture_output=True, text=True, cwd=os.environ.get('REGRESS_VERIF', '/verif'))
     lines = [l for l in r.stdout.splitlines() if l and not l.startswith('    at') and not l.startswith('VIOLATION')]
     return r.returncode, lines
 
